@@ -295,6 +295,44 @@ def transitive_case(rng, cid, shadow_std=False, nfiles=1, other_used=True, args_
     return c
 
 
+def composite_transitive_case(rng, cid, npk=4):
+    """ONE provided value whose composite type (map / func / struct / slice of those) mentions several packages that share
+    the package name `v1` and that no file of the user's package imports: they are reached only through the signatures of a
+    library's constructors.  The import names the generator invents for them (v1, v10, ...) follow the order in which it
+    meets them; that order must be a function of the type, not of a map iteration (seeded change w10-C11-1)."""
+    c = Case(cid)
+    mod = 'scratch/' + cid
+    groups = ['core', 'apps', 'batch', 'rbac', 'policy', 'events'][:npk]
+    for g in groups:
+        c.files['api/%s/v1/types.go' % g] = 'package v1\n\ntype %sSpec struct{ N int }\n\ntype %sKey string\n' % (g.capitalize(), g.capitalize())
+    imps = ''.join('\t%sv1 "%s/api/%s/v1"\n' % (g, mod, g) for g in groups)
+    sp = lambda g: '%sv1.%sSpec' % (g, g.capitalize())
+    ky = lambda g: '%sv1.%sKey' % (g, g.capitalize())
+    order = groups[:]
+    rng.shuffle(order)
+    shapes = [
+        'map[%s]*%s' % (ky(order[0]), sp(order[1])),
+        'func(%s) (%s, error)' % (', '.join('*' + sp(g) for g in order[:-1]), ky(order[-1])),
+        'struct {\n\tA *%s\n\tB []%s\n}' % (sp(order[-1]), ky(order[0])),
+        '[]map[%s][]*%s' % (ky(order[-2]), sp(order[-1])),
+    ]
+    lib = 'package lib\n\nimport (\n' + imps + ')\n\n'
+    names = []
+    for k, sh in enumerate(shapes):
+        lib += 'type Alias%d = %s\n\nfunc NewV%d() %s { var z %s; return z }\n\n' % (k, sh, k, sh, sh)
+        names.append('NewV%d' % k)
+    lib += 'type All struct{ N int }\n\nfunc NewAll(%s) *All { return &All{} }\n' % ', '.join('v%d %s' % (k, sh) for k, sh in enumerate(shapes))
+    c.files['lib/lib.go'] = lib
+    c.files['types.go'] = 'package main\n\nfunc main() {}\n'
+    items = ['kessoku.Async(kessoku.Provide(lib.%s))' % n for n in names] + ['kessoku.Provide(lib.NewAll)']
+    rng.shuffle(items)
+    c.files['k0.go'] = ('package main\n\nimport (\n\t"github.com/mazrean/kessoku"\n\t"%s/lib"\n)\n\nvar _ = kessoku.Inject[*lib.All](\n\t"Init%s",\n\t%s,\n)\n'
+                        % (mod, cid.capitalize(), ',\n\t'.join(items)))
+    c.invoke = ['k0.go']
+    c.meta.update({'kind': 'composite-transitive-imports', 'npk': npk, 'ninj': 1, 'nfiles': 1, 'types': ['transitive-composite']})
+    return c
+
+
 def derived_name_case(rng, cid, perm=0, ch_async=False):
     """Types whose local-variable names coincide with names the generator DERIVES from other variables: `Event` is built in
     a goroutine and awaited elsewhere (its done-channel is derived from its variable: eventCh) while a user type `EventCh`
@@ -388,6 +426,9 @@ def corpus(tier, sd):
         n += 1
     for k_ in range(4 if quick else 8):
         cases.append(transitive_case(rng, 'x%03d' % n, shadow_std=(k_ % 2 == 1), nfiles=1 + (k_ // 4) % 2, other_used=(k_ // 2) % 2 == 0, args_first=(k_ % 4 >= 2)))
+        n += 1
+    for k_ in range(1 if quick else 4):
+        cases.append(composite_transitive_case(rng, 'q%03d' % n, npk=3 + k_ % 3))
         n += 1
     cases += regress_cases()
     cases.append(multi_pkg_case(rng, 'p%03d' % n))
